@@ -1,13 +1,15 @@
 #!/bin/sh
-# Confirms a sub-agent's seeded change inside its own scratch worktree:
-#   demo fails with the change, passes without it, and the repository's test-suite passes with the change.
-# usage: tools/verify_mutant.sh /tmp/mut-CXX
+# Confirms a sub-agent's seeded change inside its own scratch worktree (no git stash: stashes are shared between worktrees):
+#   the worktree's diff equals MUTANT/patch.diff, the demo fails with the change, passes without it, and the
+#   repository's test-suite passes with the change.   usage: tools/verify_mutant.sh /tmp/mut-CXX
 W=$1
 cd "$W" || exit 2
 export CARGO_TARGET_DIR=$W/target CARGO_NET_OFFLINE=true
+git checkout -q -- src Cargo.toml 2>/dev/null
+git apply --whitespace=nowarn MUTANT/patch.diff || { echo "patch does not apply to a clean worktree"; exit 2; }
 echo "== with change: demo"; bash MUTANT/demo.sh >/tmp/vm_with.log 2>&1; a=$?; tail -3 /tmp/vm_with.log; echo "demo exit (with change) = $a"
 [ -n "$SKIPTESTS" ] || { echo "== tests with change"; cargo test --offline 2>&1 | grep -E "^test result|FAILED"; }
-git stash -q -- src 2>/dev/null || git stash -q
+git apply -R --whitespace=nowarn MUTANT/patch.diff
 echo "== without change: demo"; bash MUTANT/demo.sh >/tmp/vm_without.log 2>&1; b=$?; tail -2 /tmp/vm_without.log; echo "demo exit (without change) = $b"
-git stash pop -q
+git apply --whitespace=nowarn MUTANT/patch.diff
 echo "RESULT with=$a without=$b"
